@@ -14,7 +14,7 @@ from vf import resym as R
 from vf import xh
 
 H = os.path.join(C.VERIF, "harness", "C14_views.py")
-KNOWN_PROBES = [["2=x", "y"], ["a\nb=x"]]
+KNOWN_PROBES = [["2=x", "y"], ["a\nb=x"], ["1111=1"]]
 
 
 def gen_conditions(quick: bool) -> str:
@@ -52,7 +52,7 @@ def one_named_{i}_{j}(s: str) -> bool:
     pre: len(s) == {L}
     pre: {chars}
     pre: ({nb1}) and ({nb2})
-    pre: not _inner_ws_run(s[:{i}])
+    pre: not _inner_ws_run(s[:{i}]) and not _big_numeric(s[:{i}])
     post: _
     \"\"\"
     return _agree([s])
@@ -74,8 +74,8 @@ def replay_one_named_{i}_{j}(s):
                 continue
             npos = [i for i, k in enumerate(sk) if k != "P"]
             for lens in itertools.product([1, 2], repeat=len(npos)):
-                if not quick and n == 3 and sum(lens) > len(npos) + 1:
-                    continue  # at most one 2-char name in 3-argument lists
+                if not quick and n == 3 and sum(lens) > len(npos):
+                    continue  # 3-argument lists: one-character names only (2-character numeric names cost > 10 min per condition)
                 if quick and any(sk[i] == "D" and l == 2 for i, l in zip(npos, lens)):
                     continue  # two-digit numeric names: thorough tier only (int() of two symbolic digits is slow)
                 names = [f"s{i}" for i in npos]
